@@ -1,4 +1,255 @@
-//! harness family c06id: identification of the file system on a saved image (`try_img` chain of src/lib.rs) — stub
+//! harness family c06id (property C06: "… loading the bytes again, with or without the file-extension hint, yields the same
+//! file system"): identification of the file system on a saved image — the chain of `create_fs_from_bytestream` /
+//! `try_img` of src/lib.rs and the `test_img` of every file system.
+//!
+//! 1. **General oracle** `reload-same-file-system`: for every (file system × container × kind) of `fs.rs::all_cfgs`, a
+//!    volume with a few random files is saved and loaded again with its extension hint and without: the same file
+//!    system (and, for DOS 3.x, the same sector count) must be found.  Failure sig
+//!    `c06/ident/<fs>-on-<container>/misidentified`.
+//! 2. **Directed scenarios** (the known finding `c06/ident/vtoc-lookalike`, design/C06.md §5.2): a file whose data
+//!    lands on track 17 sector 0 in DOS order and passes `dos3x::test_img_16` — ProDOS on DO (hint `do`, none), CP/M on
+//!    DO (hint `do`, none), ProDOS on PO (hint `dsk`, none), Pascal on PO (none).  One sig for the class; the case text
+//!    names the configuration.
+//! 3. **Tie of the Lean model** `Reload.Ident` (`Model/Reload.lean`, driver family `c06`): for the saved bytes of every
+//!    flat image (DO, D13, PO, IMG), for mutants of them (one byte changed inside what the tests read: VTOC sector,
+//!    block 2, the Pascal directory, the boot sector) and for the look-alike images:
+//!    `c06 try <container> …` = what `from_bytes` of that container + the first four tests of `try_img` (the real
+//!    `test_img` functions, called in order) answer, and `c06 ident <hint> …` = what `create_fs_from_bytestream`
+//!    answers with the hint of a single flat container.  The request carries the segments of the image the tests read
+//!    (bytes 0‥12287, track 17 sector 0 in D13 and DO order), the rest is zero in the model.
 use crate::util::*;
+use super::fs::{all_cfgs, make_volume, Fs, VolCfg};
+use a2kit::fs::{dos3x, fat, pascal, prodos, DiskFS};
+use a2kit::img::{self, names, DiskImage};
 
-pub fn run(ctx: &mut Ctx) { ctx.out.case(b"c06id-stub", false); }
+fn fs_id(f: Fs) -> &'static str {
+    match f { Fs::Dos33 => "dos33", Fs::Dos32 => "dos32", Fs::Prodos => "prodos", Fs::Pascal => "pascal", Fs::Cpm2 => "cpm2", Fs::Cpm3 => "cpm3", Fs::Fat => "fat" }
+}
+
+/// the file system a2kit found, in the vocabulary of the model (`later` = CP/M or MS-DOS 1.x: decided by tests the
+/// model does not transcribe)
+fn class_of(d: &mut Box<dyn DiskFS>) -> String {
+    let name = match d.stat() { Ok(s) => s.fs_name, Err(e) => return format!("stat-error:{}", e) };
+    match name.as_str() {
+        "a2 dos" => if d.get_img().kind() == names::A2_DOS32_KIND { "dos32".into() } else { "dos33".into() },
+        "prodos" => "prodos".into(),
+        "a2 pascal" => "pascal".into(),
+        "fat" => "fat".into(),
+        "cpm" => "cpm".into(),
+        other => other.to_string(),
+    }
+}
+
+/// what the history's own file system is called by `class_of`
+fn expected_class(f: Fs) -> &'static str {
+    match f { Fs::Dos33 => "dos33", Fs::Dos32 => "dos32", Fs::Prodos => "prodos", Fs::Pascal => "pascal", Fs::Cpm2 | Fs::Cpm3 => "cpm", Fs::Fat => "fat" }
+}
+
+fn file_name(fs: Fs, k: usize) -> String {
+    match fs { Fs::Cpm2 | Fs::Cpm3 | Fs::Fat => format!("F{}.BIN", k), _ => format!("F{}", k) }
+}
+
+fn put_file(d: &mut dyn DiskFS, name: &str, chunks: &[Vec<u8>]) -> Result<(), String> {
+    let mut f = d.new_fimg(None, true, name).map_err(|e| e.to_string())?;
+    let cl = f.chunk_len;
+    let mut eof = 0;
+    for (i, c) in chunks.iter().enumerate() {
+        let mut c = c.clone();
+        c.truncate(cl);
+        eof = i * cl + c.len();
+        f.chunks.insert(i, c);
+    }
+    f.set_eof(eof);
+    d.put(&f).map(|_| ()).map_err(|e| e.to_string())
+}
+
+/// a sector that passes `test_img_16`
+fn fake_vtoc() -> Vec<u8> {
+    let mut v = vec![0u8; 256];
+    v[1] = 17; v[2] = 15; v[3] = 3; v[6] = 254; v[0x27] = 122; v[0x30] = 17; v[0x31] = 1; v[0x34] = 35; v[0x35] = 16; v[0x36] = 0; v[0x37] = 1;
+    v
+}
+
+/// the segments of a flat image the identification tests can read
+fn segments(b: &[u8]) -> String {
+    let mut s = String::new();
+    let mut seg = |off: usize, len: usize| {
+        if off < b.len() {
+            let end = (off + len).min(b.len());
+            s.push_str(&format!(" {}:{}", off, hx(&b[off..end])));
+        }
+    };
+    seg(0, 12288);
+    seg(17 * 3328, 256);
+    seg(69632, 256);
+    s
+}
+
+/// `from_bytes` of one flat container, then the first four tests of `try_img` in its order
+fn real_try(cont: &str, b: &[u8]) -> String {
+    let img: Option<Box<dyn DiskImage>> = match cont {
+        "d13" => img::dsk_d13::D13::from_bytes(b).ok().map(|x| Box::new(x) as Box<dyn DiskImage>),
+        "do" => img::dsk_do::DO::from_bytes(b).ok().map(|x| Box::new(x) as Box<dyn DiskImage>),
+        "po" => img::dsk_po::PO::from_bytes(b).ok().map(|x| Box::new(x) as Box<dyn DiskImage>),
+        "img" => img::dsk_img::Img::from_bytes(b).ok().map(|x| Box::new(x) as Box<dyn DiskImage>),
+        _ => None,
+    };
+    let mut img = match img { Some(i) => i, None => return "reject".into() };
+    if dos3x::Disk::test_img(&mut img) { return if img.kind() == names::A2_DOS32_KIND { "dos32".into() } else { "dos33".into() }; }
+    if prodos::Disk::test_img(&mut img) { return "prodos".into(); }
+    if pascal::Disk::test_img(&mut img) { return "pascal".into(); }
+    if fat::Disk::test_img(&mut img) { return "fat".into(); }
+    "later".into()
+}
+
+/// `create_fs_from_bytestream` with the extension of a single flat container, in the vocabulary of the model
+fn real_ident(hint: &str, b: &Vec<u8>) -> String {
+    // does the container take the bytes at all?
+    let accepted = match hint {
+        "d13" => img::dsk_d13::D13::from_bytes(b).is_ok(),
+        "do" => img::dsk_do::DO::from_bytes(b).is_ok(),
+        "po" => img::dsk_po::PO::from_bytes(b).is_ok(),
+        _ => img::dsk_img::Img::from_bytes(b).is_ok(),
+    };
+    if !accepted { return "none".into(); }
+    match a2kit::create_fs_from_bytestream(b, Some(hint)) {
+        Ok(mut d) => {
+            let c = class_of(&mut d);
+            // CP/M and MS-DOS 1.x (FAT without a boot signature) are found by tests the model does not transcribe
+            if c == "cpm" { return "later".into(); }
+            if c == "fat" && !(b.len() >= 512 && b[510] == 0x55 && b[511] == 0xAA) { return "later".into(); }
+            c
+        }
+        Err(_) => "later".into(),
+    }
+}
+
+fn tie(ctx: &mut Ctx, b: &Vec<u8>, chain: bool) {
+    let segs = segments(b);
+    for cont in ["d13", "do", "po", "img"] {
+        let r = guarded(|| real_try(cont, b)).unwrap_or_else(|p| format!("panic:{}", panic_site(&p)));
+        ctx.out.q(&format!("c06 try {} {}{}", cont, b.len(), segs), &r);
+    }
+    if !chain { return; }
+    for hint in ["d13", "do", "po", "img"] {
+        let r = guarded(|| real_ident(hint, b)).unwrap_or_else(|p| format!("panic:{}", panic_site(&p)));
+        ctx.out.q(&format!("c06 ident {} {}{}", hint, b.len(), segs), &r);
+    }
+}
+
+/// one byte changed inside what some test reads; mostly a byte a test looks at, with a value near its threshold
+fn mutate(b: &Vec<u8>, rng: &mut Rng) -> (Vec<u8>, String) {
+    let mut m = b.clone();
+    const VTOC: [usize; 9] = [1, 2, 3, 6, 0x27, 0x34, 0x35, 0x36, 0x37];
+    const KEY: [usize; 12] = [0, 1, 2, 3, 4, 5, 6, 7, 0x23, 0x24, 0x29, 0x2A];
+    const PAS: [usize; 14] = [0, 1, 2, 3, 4, 5, 6, 7, 14, 15, 16, 17, 26, 32];
+    const BPB: [usize; 16] = [11, 12, 13, 14, 15, 16, 17, 18, 19, 20, 22, 23, 32, 33, 510, 511];
+    let (base, offs, what): (usize, &[usize], &str) = match rng.below(7) {
+        0 => (69632, &VTOC, "vtoc16"),
+        1 => (17 * 3328, &VTOC, "vtoc13"),
+        2 => (1024, &KEY, "block2"),
+        3 => (1024, &PAS, "pascal-dir"),
+        4 => (0, &BPB, "boot"),
+        5 => (5 * 512 + 256, &KEY, "block2-do-order"),
+        _ => (5 * 512, &PAS, "pascal-do-order"),
+    };
+    let p = if rng.chance(75) { base + *rng.pick(offs) } else { base + rng.below(64) };
+    if p < m.len() {
+        let near: [u8; 14] = [0, 1, 2, 3, 6, 12, 13, 15, 16, 17, 21, 35, 0x27, 0xF1];
+        m[p] = match rng.below(4) { 0 => m[p].wrapping_add(1), 1 => m[p].wrapping_sub(1), 2 => *rng.pick(&near), _ => rng.byte() };
+    }
+    (m, format!("{}@{}", what, p))
+}
+
+struct Look { fs: Fs, container: &'static str, hints: &'static [Option<&'static str>], name: &'static str, nchunks: usize }
+
+pub fn run(ctx: &mut Ctx) {
+    let mut rng = Rng::new(ctx.seed ^ 0xC06D);
+    let cfgs: Vec<VolCfg> = all_cfgs(ctx.tier_thorough);
+    let per_cfg = ctx.n(1, 3);
+    let mutants = ctx.n(4, 10);
+    let mut idx = 0usize;
+
+    // 1 + 3: ordinary volumes
+    for cfg in &cfgs {
+        for rep in 0..per_cfg {
+            let mut r = rng.fork(idx as u64);
+            let me = idx;
+            idx += 1;
+            if !ctx.out.wants(me) { continue; }
+            let tag = format!("idx={} {}/{}/{} rep={}", me, fs_id(cfg.fs), cfg.container, cfg.kind_name, rep);
+            let mut d = match guarded(|| make_volume(cfg)) { Ok(Ok(d)) => d, _ => { ctx.out.count("skipped:make-volume"); continue; } };
+            let nfiles = r.range(0, 3);
+            let mut canon = tag.clone().into_bytes();
+            let mut put_ok = 0;
+            for k in 0..nfiles {
+                let nch = r.range(1, 6);
+                let chunks: Vec<Vec<u8>> = (0..nch).map(|_| { let (c, _) = gen_data(&mut r, 1024); c }).collect();
+                let name = file_name(cfg.fs, k);
+                canon.extend(format!(" {}:{}", name, nch).bytes());
+                if let Ok(Ok(())) = guarded(|| put_file(d.as_mut(), &name, &chunks)) { put_ok += 1; }
+            }
+            let exts = d.get_img().file_extensions();
+            let bytes = match guarded(|| d.get_img().to_bytes()) { Ok(b) => b, Err(_) => { ctx.out.count("skipped:to-bytes"); continue; } };
+            let want = expected_class(cfg.fs);
+            for hint in [Some(exts[0].clone()), None] {
+                let label = match &hint { Some(h) => format!("hint={}", h), None => "hint=none".to_string() };
+                let got = match guarded(|| a2kit::create_fs_from_bytestream(&bytes, hint.as_deref()).map_err(|e| e.to_string())) {
+                    Ok(Ok(mut d2)) => class_of(&mut d2),
+                    Ok(Err(e)) => format!("not-recognised:{}", e),
+                    Err(p) => format!("panic:{}", panic_site(&p)),
+                };
+                ctx.out.oracle(got == want, "reload-same-file-system", &format!("c06/ident/{}-on-{}/misidentified", fs_id(cfg.fs), cfg.container),
+                    &format!("{} {} files={} found={} expected={}", tag, label, put_ok, got, want));
+                ctx.out.count(&format!("ident:{}-on-{}:{}", fs_id(cfg.fs), cfg.container, if hint.is_some() { "hint" } else { "no-hint" }));
+            }
+            ctx.out.case(&canon, put_ok > 0);
+            ctx.out.sample(&format!("{} files={}", tag, put_ok));
+            // the model tie, flat containers only
+            // (the 32 MB ProDOS volume is left to the oracle: the model would build a 33 million element list)
+            if matches!(cfg.container, "do" | "d13" | "po" | "img") && bytes.len() <= 4_000_000 {
+                tie(ctx, &bytes, true);
+                for _ in 0..mutants {
+                    let (m, what) = mutate(&bytes, &mut r);
+                    ctx.out.count(&format!("mutant:{}", what.split('@').next().unwrap_or("")));
+                    tie(ctx, &m, false);
+                }
+            }
+        }
+    }
+
+    // 2: the VTOC look-alike (known finding)
+    let looks = [
+        Look { fs: Fs::Prodos, container: "do", hints: &[Some("do"), None], name: "FAKE", nchunks: 200 },
+        Look { fs: Fs::Cpm2, container: "do", hints: &[Some("do"), None], name: "FAKE.BIN", nchunks: 100 },
+        Look { fs: Fs::Prodos, container: "po", hints: &[Some("dsk"), None], name: "FAKE", nchunks: 200 },
+        Look { fs: Fs::Pascal, container: "po", hints: &[None], name: "FAKE", nchunks: 200 },
+    ];
+    for lk in &looks {
+        let me = idx;
+        idx += 1;
+        if !ctx.out.wants(me) { continue; }
+        let cfg = match cfgs.iter().find(|c| c.fs == lk.fs && c.container == lk.container && c.kind == names::A2_DOS33_KIND) { Some(c) => c, None => continue };
+        let tag = format!("idx={} vtoc-lookalike {}/{}", me, fs_id(lk.fs), lk.container);
+        let mut d = match guarded(|| make_volume(cfg)) { Ok(Ok(d)) => d, _ => { ctx.out.count("skipped:make-volume"); continue; } };
+        // every 256-byte piece of every chunk is the look-alike: whichever piece lands on track 17 sector 0 will do
+        let mut chunk = Vec::new();
+        for _ in 0..4 { chunk.extend(fake_vtoc()); }
+        let chunks: Vec<Vec<u8>> = (0..lk.nchunks).map(|_| chunk.clone()).collect();
+        if !matches!(guarded(|| put_file(d.as_mut(), lk.name, &chunks)), Ok(Ok(()))) { ctx.out.count("skipped:lookalike-put"); continue; }
+        let bytes = match guarded(|| d.get_img().to_bytes()) { Ok(b) => b, Err(_) => continue };
+        let want = expected_class(lk.fs);
+        for hint in lk.hints {
+            let got = match guarded(|| a2kit::create_fs_from_bytestream(&bytes, *hint).map_err(|e| e.to_string())) {
+                Ok(Ok(mut d2)) => class_of(&mut d2),
+                Ok(Err(e)) => format!("not-recognised:{}", e),
+                Err(p) => format!("panic:{}", panic_site(&p)),
+            };
+            ctx.out.oracle(got == want, "reload-same-file-system", "c06/ident/vtoc-lookalike",
+                &format!("{} hint={} found={} expected={} (a file whose data passes dos3x::test_img_16 on track 17 sector 0)", tag, hint.unwrap_or("none"), got, want));
+        }
+        ctx.out.case(tag.as_bytes(), true);
+        ctx.out.count("scenario:vtoc-lookalike");
+        tie(ctx, &bytes, true);
+    }
+}
